@@ -217,11 +217,28 @@ class PathView:
         return fmt_witness(self.P, self.f, self.path)
 
 
+_PV_CACHE = {}
+
+
 def path_views(ctx, P, f, loop_iters=None):
-    ps = P.paths(f, loop_iters=loop_iters or ctx.loop_iters)
+    li = loop_iters or ctx.loop_iters
+    ck = (id(P), f.name, li)
+    if ck in _PV_CACHE:
+        ctx.fn_seen(f)
+        return _PV_CACHE[ck]
+    if li > 1:
+        try:
+            ps = P.paths(f, loop_iters=li, max_paths=40000)
+        except AnalysisBroken:
+            ctx.note("%s: unrolling loops %d times exceeds the path cap; one iteration used" % (f.key, li))
+            ps = P.paths(f, loop_iters=1)
+    else:
+        ps = P.paths(f, loop_iters=li)
     ctx.count("paths_enumerated", len(ps))
     ctx.fn_seen(f)
-    return [PathView(P, f, p) for p in ps]
+    vs = [PathView(P, f, p) for p in ps]
+    _PV_CACHE[ck] = vs
+    return vs
 
 
 # ---------- stores / who ----------
